@@ -32,7 +32,9 @@ def run_property(pid: str, tier: str, repo: str | None = None, write=True, quiet
     ck = Checker(prog, pid, tier)
     mod = importlib.import_module(f"sv.rules.{pid}")
     try:
-        mod.check(ck)
+        from sv.rules import run_rules
+
+        run_rules(ck, pid)
     except AnalysisError as exc:
         # an anchor vanished part-way: if a structural clause was already found violated that verdict
         # stands (the violation is reported); otherwise the run is analysis-broken (exit 2)
